@@ -101,6 +101,7 @@ type blsKey struct {
 	sec    bls.SecretKey
 	scheme *encryption.BLS0ChainScheme // with the private key (signer)
 	pub    string
+	keys   string // public + private key in the format of ReadKeys / WriteKeys
 }
 
 // detKey derives a real BLS key pair from the trace RNG (reproducible traces).
@@ -113,6 +114,7 @@ func detKey(r *rand.Rand) *blsKey {
 	k.scheme = encryption.NewBLS0ChainScheme()
 	keys := hex.EncodeToString(k.sec.GetPublicKey().Serialize()) + "\n" + hex.EncodeToString(k.sec.GetLittleEndian()) + "\n"
 	must(k.scheme.ReadKeys(strings.NewReader(keys)))
+	k.keys = keys
 	k.pub = k.scheme.GetPublicKey()
 	return k
 }
